@@ -10,11 +10,11 @@ PID = 'C15'
 LEVEL = 'model_checking'
 ENGINE = 'E1+E3'
 TECHNIQUE = 'exhaustive enumeration of sight/barrel/look/speed configurations x record steps incl. steps that collide with the event step, events derived independently from the full step trace; plus all side/advance/Mach sequences up to depth n through the real record filter against an event reference model'
-RULE = ('trace cells = sight height {2,0,-1 in} x barrel {zeroed 100 yd, zeroed 300 yd, along the sight line, -5 MOA} x look {0,+-20 deg} x launch {2750,1150,1000 fps}; '
+RULE = ('trace cells = sight height {2,0,-1 in} x barrel {zeroed 100 yd, zeroed 300 yd, along the sight line, -5 MOA} x look {0,+-20 deg} x launch {2750,1150,1000 fps}, plus canted rifles (60, 120, 180 deg) with explicit barrel elevations; '
         'each cell fires range/step (400 yd,100 yd), (400 yd,7 yd) and, for every event found in the step trace, three record steps chosen so that a record distance '
         'falls inside the very step of the event; filter cells = 9 initial conditions x every plausible side sequence (below* above* below* / above* below*) x Mach-ratio '
         'sequence in {>1,<1}^n x advance pattern x 2 range steps, n <= 4 (thorough 5); non-trivial = cell with at least one event in the trace')
-ASSUMPTIONS = ['exact ties (a point exactly on the sight line, a start exactly on it, Mach exactly 1) and events whose crossing step straddles the end of the requested range are do-not-care',
+ASSUMPTIONS = ['exact ties (a point exactly on the sight line, Mach exactly 1) and events whose crossing step straddles the end of the requested range are do-not-care; for a start exactly on the sight line (sight height 0) ZERO_DOWN is do-not-care, but no ZERO_UP may appear (leaving the line at the muzzle is not a crossing beyond the muzzle)',
                'a combined RANGE|event row is interpolated inside the crossing step: its Mach may lie within one step\'s deceleration on either side of 1 (lenient)',
                'grid values only']
 LEVEL_TEXT = ('Events are a property of the whole step sequence; the filter state machine (seen_zero, previous_v_mach, current_flag) is driven through every plausible '
@@ -63,7 +63,7 @@ def check(calc, shot, la, R, step, tr, time_step=0.0):
     if not ties and not strad:
         if S[0] > 0 or (start_tie and len(S) > 1 and S[1] > 0):
             dn = list(downs)
-            exp_up = 0 if S[0] > 0 else None
+            exp_up = 0       # also for a start exactly on the line that leaves it upward: that crossing is AT the muzzle, not beyond it
         elif start_tie:
             dn = None
             exp_up = None
@@ -126,7 +126,7 @@ def trace_cell(cell):
     dm = pb.DragModel(0.223, pb.TableG7, U.Grain(168), U.Inch(0.308), U.Inch(1.2))
     w = pb.Weapon(U.Inch(sh), U.Inch(0))
     winds = [pb.Wind(U.MPH(25), U.Degree(20), U.Yard(150)), pb.Wind(U.MPH(25), U.Degree(200))] if opt.get('wind') else None
-    shot = pb.Shot(w, pb.Ammo(dm, U.FPS(mv)), look_angle=U.Degree(la), winds=winds)
+    shot = pb.Shot(w, pb.Ammo(dm, U.FPS(mv)), look_angle=U.Degree(la), winds=winds, cant_angle=U.Degree(opt.get('cant', 0.0)))
     try:
         if bar == 'z100':
             calc.set_weapon_zero(shot, U.Yard(100))
@@ -134,6 +134,8 @@ def trace_cell(cell):
             calc.set_weapon_zero(shot, U.Yard(300))
         elif bar == 'below':
             w.zero_elevation = U.MOA(-5)
+        elif bar == 'up10':
+            w.zero_elevation = U.MOA(10)
     except Exception:  # zeroing is C02's business
         return {'vac': True}
     R = 1200 * math.cos(math.radians(la))
@@ -258,7 +260,7 @@ def filt(cell):
                         tie_case = start == 'on'
                         g, e = got[i], exp[i]
                         if tie_case:
-                            g, e = g & 4, e & 4          # zero flags are do-not-care when starting exactly on the line
+                            g, e = g & 5, e & 5          # starting exactly on the line: leaving it at the muzzle is no upward crossing BEYOND the muzzle (no ZERO_UP); ZERO_DOWN is do-not-care
                         if g != e:
                             if len(out) < 3:
                                 out.append({'msg': f'filter start {start}, barrel {barrel_rel}: sides {sides}, Mach ratios {mach_seq}, advances {adv[:L]}: call {i} flagged {got[i]} expected {exp[i]}', 'key': None})
@@ -283,6 +285,8 @@ def plan(tier):
     tr = [list(c) for c in itertools.product((2.0, 0.0, -1.0), ('z100', 'z300', 'along', 'below'), (0.0, 20.0, -20.0), (2750.0, 1150.0, 1000.0))]
     tr += [[sh, bar, la, mv, opt] for sh in (2.0, -1.0) for bar in ('z100', 'z300') for la in (0.0, 20.0) for mv in (2750.0, 1150.0)
            for opt in ({'wind': True}, {'time_step': 0.05}, {'wind': True, 'time_step': 0.003})]
+    # canted rifles, also beyond 90 degrees (the muzzle is then on the other side of the sight line: above it for a positive sight height)
+    tr += [[sh, bar, la, 2750.0, {'cant': c}] for sh in (2.0, -1.0) for bar in ('up10', 'below', 'along') for la in (0.0, 20.0) for c in (60.0, 120.0, 180.0)]
     n = 4 if tier == 'quick' else 5
     fl = [[s, b, n, rs] for s in ('below', 'on', 'above') for b in ('above', 'equal', 'below') for rs in (2.0, 4.0)]
     return [('trace', tr), ('filter', fl)]
